@@ -1,3 +1,4 @@
+import TerwayModel.Model.Factory
 import TerwayModel.Model.VSwitch
 /-
 C17 — vSwitch selection honours zone, capacity and policy without side effects.
@@ -590,5 +591,28 @@ example : (getOne demoPool .ordered "z" false ["a", "b", "c"] []).choice = some 
 example : (getOne demoPool .most "z" false ["a", "b", "c"] []).choice = some ⟨"b", "z", 9⟩ := by decide
 example : (getOne (block (getByID demoPool "b").1 "b") .most "z" false ["a", "b", "c"] []).choice = some ⟨"a", "z", 3⟩ := by decide
 example : (getOne demoPool .ordered "q" true ["a", "b", "c"] []).choice = some ⟨"a", "z", 3⟩ := by decide
+
+/-- **A vSwitch the cloud reported exhausted to the factory is not named by a later create request** (while its cache entry
+    lives): of two orders in a row over candidates that are all exhausted, the second sends no create request at all, and the
+    first names every candidate exactly once -/
+theorem c17_factory_exhausted_not_chosen_again (n : Nat) :
+    (Factory.exhaustTwice n).2 = [] ∧ (Factory.exhaustTwice n).1 = List.range n := by
+  have h1 : (Factory.exhaustOrder n []).1 = List.range n := by
+    unfold Factory.exhaustOrder; simp
+  have h2 : (Factory.exhaustOrder n []).2 = List.range n := by
+    unfold Factory.exhaustOrder; simp
+  have h3 : (Factory.exhaustOrder n (List.range n)).1 = [] := by
+    unfold Factory.exhaustOrder
+    apply List.filter_eq_nil_iff.mpr
+    intro i hi
+    simp [hi]
+  unfold Factory.exhaustTwice
+  constructor
+  · show (Factory.exhaustOrder n (Factory.exhaustOrder n []).2).1 = []
+    rw [h2]; exact h3
+  · show (Factory.exhaustOrder n []).1 = List.range n
+    exact h1
+
+example : Factory.exhaustTwice 2 = ([0, 1], []) := by decide
 
 end Terway.Props.C17
